@@ -116,7 +116,7 @@ def _operators(ctx: Ctx, c: Collector) -> None:
                         env[other] = ("fin", om)
                         other_has = om
                     env[me] = ("cofin", self_has)
-                    kind, got = _member(r.term, env)
+                    kind, got = _member(boolfn.resolve_phi(r.term, {isinst: other_is_outset}), env)
                     want = meaning(self_has, other_has)
                     want_kind = {"__sub__": "cofin" if not other_is_outset else "fin", "__rsub__": "fin", "__and__": "cofin" if other_is_outset else "fin",
                                  "__rand__": "fin", "__or__": "cofin", "__ror__": "cofin"}[name]
@@ -147,14 +147,20 @@ def _operators(ctx: Ctx, c: Collector) -> None:
     me, other = T.var(fi.params[0]), T.var(fi.params[1])
     isinst = call(T.glob("isinstance"), other, T.glob(OUTSET))
     pr = []
+    SAME = T.canon_cmp("==", ("attr", me, "_set"), ("attr", other, "_set"))
     for r in s.returns:
         try:
-            if boolfn.guards_hold_leaves(r.guards, {isinst: False}) and r.term != T.const(False):
-                pr.append("an OutSet can compare equal to something that is not an OutSet")
-            if boolfn.guards_hold_leaves(r.guards, {isinst: True}) and r.term != T.canon_cmp("==", ("attr", me, "_set"), ("attr", other, "_set")):
-                pr.append("two OutSets are not compared by their excluded elements")
+            if boolfn.guards_hold_leaves(r.guards, {isinst: False}):
+                # value for a non-OutSet: must be False whatever the sets are
+                for same in (False, True):
+                    if boolfn.eval_leaves(r.term, {isinst: False, SAME: same}):
+                        pr.append("an OutSet can compare equal to something that is not an OutSet")
+            if boolfn.guards_hold_leaves(r.guards, {isinst: True}):
+                for same in (False, True):
+                    if boolfn.eval_leaves(r.term, {isinst: True, SAME: same}) != same:
+                        pr.append("two OutSets are not compared by their excluded elements")
         except boolfn.NotBoolean:
-            pr.append("guards not understood")
+            pr.append("comparison not understood")
     c.add("op", qn, "__eq__", VIOLATED if pr else DISCHARGED, "; ".join(pr), fi.loc)
 
 
